@@ -51,10 +51,15 @@ MACHINES = {
         52: (1, SUB), 53: (2, SUB), 55: (4, SUB), 56: (8, SUB),
         99: (4, PCREL), 109: (8, PCREL)}},
 }
+# The same machines in ELFCLASS32 containers (x32, MIPS n32, LoongArch32): the recipes are selected by e_machine, the field widths by the
+# relocation type - neither depends on the file class.  Only types that fit the 8-bit type field of an ELF32 r_info.
+MACHINES['x64_x32'] = dict(MACHINES['x64'], cls=32)
+MACHINES['mips_rela_n32'] = dict(MACHINES['mips_rela'], cls=32)
+MACHINES['loongarch32'] = dict(MACHINES['loongarch'], cls=32)
 
 # Types for which the property makes no statement either way (the library supports them, A.5 does not list them):
 # they are neither generated as positive nor as negative cases.
-GREY = {'arm': {28}, 'mips_rela': {0}}
+GREY = {'arm': {28}, 'mips_rela': {0}, 'mips_rela_n32': {0}}
 
 # Machines without any supported debug relocation (used for the 'unsupported machine' error path).
 # EM_SPARC, EM_68K, EM_PPC, EM_SH, EM_SPARCV9, EM_IA_64, EM_RISCV, EM_NONE.  (EM_BPF 247 is excluded: the library
